@@ -364,6 +364,27 @@ def gen_history(rng):
     return ops
 
 
+def gen_big_history(rng):
+    """One object with many dense attributes (the name index leaf stays above half full after a delete: the lazy
+    delete path then defers its batch), a few deletes / upserts at the end.  Added after seeded change C19-b."""
+    target = rng.choice([186, 187, 200, 230, 260, 371, 372])
+    names = ["n%03d" % i for i in range(target)]
+    ops = [dict(op="set", name=nm, type="i32", i=i) for i, nm in enumerate(names)]
+    live = list(names)
+    for _ in range(rng.randrange(1, 6)):
+        r = rng.random()
+        if r < 0.7 and live:
+            nm = live.pop(rng.randrange(len(live)))
+            ops.append(dict(op="del", name=nm))
+        elif r < 0.85:
+            ops.append(dict(op="set", name=rng.choice(live), type="i32", i=rng.randrange(-5, 5)))
+        else:
+            nm = "x%03d" % rng.randrange(1000)
+            ops.append(dict(op="set", name=nm, type="i32", i=7))
+            live.append(nm)
+    return ops
+
+
 def gen_configs(rng, nops):
     NS, US, MS, S = 1, 10**3, 10**6, 10**9
     lazy = lambda: dict(kind="lazy", threshold=rng.choice([0.01, 0.05, 0.2, 0.5, 1.0, 0.0, -1.0, 5.0]),
@@ -559,8 +580,9 @@ def run(ctx):
     builddir = os.path.join(vlib.BUILD, "c19files")
     os.makedirs(builddir, exist_ok=True)
     cfg_cases, meta = [], []
-    for h in range(nhist):
-        ops = gen_history(rng)
+    nbig = 8 if quick else 60
+    for h in range(nhist + nbig):
+        ops = gen_history(rng) if h < nhist else gen_big_history(rng)
         for k, (cfg, toggles) in enumerate(gen_configs(rng, len(ops))):
             cfg_cases.append(dict(path=os.path.join(builddir, "h%d_%d_%d.h5" % (ctx.seed, h, k)), config=cfg, toggles=toggles, ops=ops))
             meta.append((h, k))
@@ -691,7 +713,7 @@ def run(ctx):
                       mode_changes_sooner_than_period_after_a_held_decision=agg["pairwise"], distinct_situations=len(situations),
                       scripted_cases=sum(1 for c in cases if c["strategy"] == "script")),
         evaluate_pipeline=dict(cases=len(ecases), evaluations=evals, workload_types=wtypes),
-        content=dict(histories=nhist, configurations_per_history=7, attribute_ops=attr_ops, histories_reaching_dense=dense_hist,
+        content=dict(histories=nhist + nbig, large_object_histories=nbig, configurations_per_history=7, attribute_ops=attr_ops, histories_reaching_dense=dense_hist,
                      histories_deleting_while_dense=dense_del_hist, cross_configuration_differences=cross_dis,
                      dict_oracle_disagreements=len(oracle_dis),
                      writes_refused_by_the_library_in_every_configuration=refused_sets, refusal_messages=sorted(refused_msgs)[:5]),
